@@ -307,7 +307,9 @@ example : FilterRespects false (ArrF.bn "append") :=
     rw [this] at h; cases h; rfl)
 
 /-! ## What the standard configuration forces (counterexamples; each is a place where the real
-code distinguishes representations that C18 declares equivalent) -/
+code distinguishes representations that C18 declares equivalent — each was also run on the real
+engine of /repo with the template and the two bindings named in its comment, with the two
+different results stated) -/
 
 /-- *`uniq` sees the element type of nested slices.* Template `{{ a | uniq | size }}` with
 `a = []any{[]int{1}, []any{1}}` gives 2, with `a = []any{[]any{1}, []any{1}}` gives 1
